@@ -78,7 +78,7 @@ CoreReturn ==
 \* Core::resolve: a rejected resolution returns the error and runs nothing
 CoreResolve(r, v) ==
   /\ phase = "idle"
-  /\ Resolve(r, v)
+  /\ \E al \in Aliases(r) : Resolve(r, v, al)
   /\ phase' = IF ResolveResult(r) = "ok" THEN "run" ELSE "idle"
   /\ UNCHANGED <<modelLog, table, registry>>
 
@@ -115,7 +115,7 @@ Respond(id, v, keepFinished) ==
   /\ id \in DOMAIN registry
   /\ LET r == registry[id].rid
          res == ResolveResult(r) IN
-     /\ Resolve(r, v)
+     /\ \E al \in Aliases(r) : Resolve(r, v, al)
      /\ phase' = IF res = "ok" THEN "run" ELSE "idle"
      /\ registry' = IF reqs[r].kind = "once" \/ reqs[r].kind = "never" \/ (res = "finished" /\ ~keepFinished)
                     THEN [x \in DOMAIN registry \ {id} |-> registry[x]] ELSE registry
@@ -129,7 +129,7 @@ RespondBad(id) ==
   /\ id \in DOMAIN registry
   /\ LET r == registry[id].rid IN
      IF reqs[r].kind = "once"
-     THEN /\ DropReq(r)
+     THEN /\ \E al \in Aliases(r) : DropReq(r, al)
           /\ registry' = [x \in DOMAIN registry \ {id} |-> registry[x]]
      ELSE UNCHANGED <<cvars, registry>>
   /\ UNCHANGED <<modelLog, phase, table>>
